@@ -57,6 +57,10 @@ class DirectCollocation(SamplingMethod):
         self.degree = degree
         self.tau = collocation_points(degree, scheme)
         [self.C, self.D, self.B] = collocation_coeff(self.tau)
+        # Quadrature weights: the interpolatory rule on the collocation points themselves.
+        # collocation_coeff integrates the Lagrange basis on [0]+tau and drops the weight of 0,
+        # which is nonzero for radau with degree 1 (constants would not be integrated exactly)
+        self.B = DM(np.linalg.solve(np.vander(self.tau, increasing=True).T, 1.0/np.arange(1, degree+1)))
         self.clean()
 
     def clean(self):
